@@ -36,6 +36,10 @@ def extra_cases():
     T('dropped-after-return', "int f(int a) { if (a > 0) { return 1; } else { return 2; } write('X'); return 3; }\n" + sent + "empty @is_you(int a, int b) { sleep(f(a)); write('.'); }\n")
     T('dropped-after-loop', "int f(int a) { while (true) { if (a > 0) { return 1; } a += 1; } write('X'); return 3; }\n" + sent + "empty @is_you(int a, int b) { sleep(f(a % 3)); write('.'); }\n")
     T('dropped-after-continue', "empty f(int a) { for (int i = 0; i < 2; i += 1) { if (i == a) { continue; write('X'); } write('k'); } }\n" + sent + "empty @is_you(int a, int b) { f(a); write('.'); }\n")
+    T('user-all-is-win-overload', "empty all_is_win(bool really) { write('w'); }\nint pick(int a) { if (a > 0) { return 1; } all_is_win(false); }\n" + sent + "empty @is_you(int a, int b) { sleep(pick(a)); write('.'); }\n")
+    T('user-all-is-broken-overload', "empty all_is_broken(int code) { sleep(code); }\nint pick(int a) { if (a > 0) { return 1; } all_is_broken(3); write('x'); return 2; }\n" + sent + "empty @is_you(int a, int b) { sleep(pick(a)); write('.'); }\n")
+    T('user-overload-then-code', "empty all_is_win(int n) { sleep(n); }\nempty f(int a) { all_is_win(a); write('a'); if (a > 1) { all_is_win(); } write('b'); }\n" + sent + "empty @is_you(int a, int b) { f(a); write('.'); }\n")
+    T('terminal-calls-in-expr-position', "int f(int a) { if (a > 0) { all_is_broken(); } return 4; }\n" + sent + "empty @is_you(int a, int b) { sleep(f(a)); write('.'); }\n")
     T('last-function', "empty @is_you(int a, int b) { sleep(f(a)); write('.'); }\nint f(int a) { if (a > 0) { return 1; } return 2; }\n")
     return out
 
@@ -44,7 +48,7 @@ def main():
     rep = Report(PID, 'model_checking', 'symbolic execution of the emitted assembly (z3) with a function-extent fall-through monitor, and VM vs reference interpreter for returned values and dropped code')
     quick = rep.tier == 'quick'
     cases = extra_cases() + F.cf_enumerated() + F.cf_random(rep.seed, 300 if quick else 3000)
-    widths = [2] if quick else [2, 3, 4]
+    widths = [2, 3, 4] if quick else [2, 3, 4, 8]
     tasks = []
     for W in widths:
         for i, c in enumerate(cases):
